@@ -31,7 +31,7 @@ T = {
          'View consistency over arbitrary edit histories and absence of empty cycles after straighten/fold are NOT decided.'),
  'C06': ('static analysis: cursor discipline of sibling walkers (CURSOR), value-numbered clone comparison (CLONE), index-space typing of circuit-wide vs operation-local parameter indices (IXT), mirror-image agreement of the forward/backward grid walkers (MIRROR), radix-generic code never falls back to qubits (RADIXDROP, POW2)',
          'Decides: every function that walks operations with a running parameter index uses the same iteration order, slices params[i:i+W] and advances i by the same W exactly once per iteration; apply_right/left and their eval_ clones have equal contraction expressions; gradient product-rule structure; an operation-local parameter index never goes where a circuit-wide one is expected (and vice versa).',
-         'Also decided: inside Circuit, UnitaryMatrix, StateVector, UnitaryBuilder and gates constructed with radixes, every UnitaryMatrix(...) / StateVector(...) wrapper passes the radixes (or copies under an isinstance test), and no tensor is sized with 2 ** n. Correctness of the contraction itself and numerical values are NOT decided.'),
+         'Also decided: inside Circuit, UnitaryMatrix, StateVector, UnitaryBuilder and gates constructed with radixes, every UnitaryMatrix(...) / StateVector(...) wrapper passes the radixes (or copies under an isinstance test), and no tensor is sized with 2 ** n; nothing under bqskit/ir is memoised from state the class hands out by reference (MEMOALIAS). Correctness of the contraction itself and numerical values are NOT decided.'),
  'C07': ('static analysis: message-protocol extraction and closure (PROTO), token/lock dataflow (TOKEN, LOCK), cross-thread atomicity (ATOM), precedence and sibling rules',
          'Decides: the protocol is closed on all four channels with agreeing payload shapes and sibling consumers; round-trip requests are answered exactly once per path; the wake-once token is cleared when consumed; read-receipt lock discipline; mailbox exists before SUBMIT; routing siblings agree; next() batches are handed over by reference before the reset; Worker.map reserves one mailbox slot per task; a manager routes a message for a task it does not own below. Reports the non-atomic wake protocol as a known finding.',
          'Delivery orders, thread interleavings, exactly-once execution and liveness are NOT decided.'),
@@ -39,7 +39,7 @@ T = {
          'Decides: each partitioner discriminates barrier/measurement/reset before grouping (five known findings); QuickPartitioner puts every operation in exactly one bin and only original points reach the output; a bounding argument passed by a caller is honoured by the callee; a bin that must wait for another inherits what that one waits for; every ordering event of the sweep (operation added to a bin, barrier queued) comes with a blocking sweep over all active bins in the same iteration; iterators that activate pending qudits drain all due entries; ExtendBlockSizePass and QuickPartitioner re-wrap a block with the operation\'s parameters.',
          'Block width bounds and order preservation on concrete circuits are algorithmic and NOT decided (only the transitivity co-update and the presence of the blocking sweeps are).'),
  'C09': ('static analysis: effect pairing in the forward passes (PAIR), index-space typing (IXT), data-flow of the executable list (FLOW), eq/hash (HASH), aligned lists (ALIGN), even-parity of tentative swaps (UNDO), field completeness of PassData.become (FIELDS)',
-         'Decides: every change of pi is mirrored by an emitted swap (and vice versa) on every path; emitted locations are physical; operations are emitted only if _can_exe held; mapping writes are well typed and placed after the forward pass; CouplingGraph hash is order independent; the permutation-aware passes enumerate their permutation tables in aligned order; swap scoring takes its tentative swap back on every exit; every swap the routers emit names the circuit\'s radix (SWAPRADIX); list-based worklist searches filter successors against what they have seen (VISITED); no gate class whose constructor fixes the radixes to 2 goes into a radix-generic circuit of a mapping pass (QUBITGATE); every placement pass tests connectivity of what it places (PLACECONN).',
+         'Decides: every change of pi is mirrored by an emitted swap (and vice versa) on every path; emitted locations are physical; operations are emitted only if _can_exe held; mapping writes are well typed and placed after the forward pass; CouplingGraph hash is order independent; the permutation-aware passes enumerate their permutation tables in aligned order; swap scoring takes its tentative swap back on every exit; every swap the routers emit names the circuit\'s radix (SWAPRADIX); list-based worklist searches filter successors against what they have seen (VISITED); no gate class whose constructor fixes the radixes to 2 goes into a radix-generic circuit of a mapping pass (QUBITGATE); every placement pass tests connectivity of what it places (PLACECONN); the routers empty their no-progress swap list on every path through the gates-executed branch (PROGRESS).',
          'Equality of output and input under the mappings, termination of the uphill escape and connectivity of placements are NOT decided.'),
  'C10': ('static analysis: guarded accept over all numerical passes (GA), radix belief contradiction (RADIX), rule-template protocol (TEMPLATE), effect restriction (EFF), alternative-spelling agreement (ALTSPELL), ordered-complement slices (STABLEMOVE), operation-parameter flow (PARAMFLOW), enumeration index identity (ENUMID), adjoint-spelling agreement (ADJOINT), unclipped inverse sine/cosine (NANDOM), stored-option liveness (OPTLIVE), directional index shift (SHIFTDIR), flag x target guard grid (GRID), unitary diagonalisers (EIGUNIT)',
          'Decides: every numerical pass commits a candidate only under cost < threshold linked to that candidate and the pass target; qubit-only constructions are not fed radix-dependent gates; rule passes drop their source gate, introduce the advertised target and replace every collected point; removal passes only pop; the two spellings of a rotation receive the same angle; moving the multiplexor target keeps the select order; re-wrapped blocks keep their operation\'s parameters; an enumerate() index used as an identifier is taken over the unfiltered sequence; matrices the pinned tree adjoins are not merely transposed or conjugated; no pass takes arccos/arcsin of an unclipped matrix-derived value; every constructor option a pass stores is read by something an instance can execute (two known findings: max_depth of QFAST / QPredict decomposition); two-way scans shift cycle indices only from the left; BlockConversionPass has one guard per (kind, target) pair; no eig() eigenvector matrix is used as a unitary.',
@@ -63,10 +63,10 @@ T = {
          'Decides: copy/become/clear and the CouplingGraph copy-constructor carry every __init__ field; Circuit.__reduce__ and rebuild_circuit agree on state shape, gate indexing, dill flag and cycle grouping; every eq/hash pair in bqskit/ is consistent and order independent and no __eq__ stops at the shorter operand or compares a radix-blind component without the radixes; a memoised hash is computed from the same fields as the unmemoised one; become(deepcopy=True) deep-copies nested containers; classes with __new__(**kwargs) return (args, kwargs) to pickle from what __new__ kept; CachedClass keys its instances on the arguments bound to the constructor\'s signature with defaults applied (CACHEKEY), since cached gates are compared by identity.',
          'Equality of concrete round-tripped objects and dill coverage of closures are NOT decided.'),
  'C17': ('static analysis: registry agreement between QASM writer and reader tables and between grammar, evaluator and the OpenQASM 2 function set (REG), translator data-flow (FLOW), register-offset cursor discipline and index-space typing in the reader (REGOFF), declare-once in the writer (DECLONCE), bracket / spliced-number clauses of the expression evaluator (REG-rules), parameter cursor of custom gate definitions (CURSOR), ascending index inserts (INSERTORD), grammar hygiene read from the lark grammar as data (UNUSED, LITRULE, INLINEKW) and list-walk agreement with the grammar\'s recursion (LISTWALK)',
-         'Decides: every statically named gate spelling the writer can emit is in the reader table with the same arity and constructor (known gaps reported); grammar function terminals = evaluator table = OpenQASM 2 set; every semantic grammar rule has a visitor method; translators go through the QASM codec; every register-local qubit index reaches the circuit only shifted by its register\'s offset, computed by a cursor that starts at 0 and advances by each register\'s size; the writer declares each register once; the evaluator keeps the brackets of a parenthesised sub-expression and brackets every spliced argument; a custom gate definition hands each inner gate its own parameter slice; every grammar rule is referenced, every keyword literal is an OpenQASM 2 word, no keyword alternative hides inside a rule without visitor method, and the visitor\'s list walkers descend into the child the grammar\'s left recursion puts first; every attribute a gate\'s __eq__ compares is read by its QASM writer (EQQASM).',
+         'Decides: every statically named gate spelling the writer can emit is in the reader table with the same arity and constructor (known gaps reported); grammar function terminals = evaluator table = OpenQASM 2 set; every semantic grammar rule has a visitor method; translators go through the QASM codec; every register-local qubit index reaches the circuit only shifted by its register\'s offset, computed by a cursor that starts at 0 and advances by each register\'s size; the writer declares each register once; the evaluator keeps the brackets of a parenthesised sub-expression and brackets every spliced argument; a custom gate definition hands each inner gate its own parameter slice; every grammar rule is referenced, every keyword literal is an OpenQASM 2 word, no keyword alternative hides inside a rule without visitor method, and the visitor\'s list walkers descend into the child the grammar\'s left recursion puts first; every attribute a gate\'s __eq__ compares is read by its QASM writer (EQQASM); no visitor loop descends blindly through single-child tree nodes, which would cross the unary minus (UNWRAP); generated gate identifiers derive from hash(gate) / the gate\'s circuit (IDENT).',
          'Unitary agreement with Qiskit and parameter binding in nested definitions are NOT decided.'),
  'C18': ('static analysis: eq/hash consistency (HASH), override pairing (OVERRIDE), value-numbered agreement of get_unitary/get_grad/get_unitary_and_grad (TRIAD), gradient literal shapes (GRADSHAPE, SIBTEMP), order-sensitive folds (KRONFOLD, INSERTORD), adjoint-spelling agreement (ADJOINT), no angle from a quotient (ATAN), symbolic differentiation of hand-written unitaries in the sin/cos/phase polynomial ring (GRADSYM), magnitude-blind optimisers (MAGBLIND), totality of calc_params under the inherited optimize (TOTAL), unclipped inverse sine/cosine (NANDOM), unguarded division by a recovered angle\'s sine/cosine in calc_params (DEGEN)',
-         'Decides: all gate classes have consistent, order-independent eq/hash; inverse methods are overridden together; the three evaluation entry points of delegating gates are the same expressions; hand-written gradient literals have one matrix per parameter with the unitary\'s shape; Kronecker folds keep the accumulator on the left; index inserts run in ascending order; matrices the pinned tree adjoins are not merely transposed or conjugated; optimize() recovers angles with a two-argument arctangent, never from a quotient; for the gates written out as matrices of sines, cosines and phases (U2, U3, CKM, CKMdg) every gradient entry equals the symbolic derivative of the unitary entry; no optimize() computes a parameter from the separate phases of several environment entries it multiplies; a class inheriting GeneralGate.optimize has a calc_params without content-dependent raise; arccos/arcsin arguments are clipped or normalised ratios and calc_params does not divide by an unguarded sine/cosine of a recovered angle.',
+         'Decides: all gate classes have consistent, order-independent eq/hash; inverse methods are overridden together; the three evaluation entry points of delegating gates are the same expressions; hand-written gradient literals have one matrix per parameter with the unitary\'s shape; Kronecker folds keep the accumulator on the left; index inserts run in ascending order; matrices the pinned tree adjoins are not merely transposed or conjugated; optimize() recovers angles with a two-argument arctangent, never from a quotient; for the gates written out as matrices of sines, cosines and phases (U2, U3, CKM, CKMdg) every gradient entry equals the symbolic derivative of the unitary entry; no optimize() computes a parameter from the separate phases of several environment entries it multiplies; a class inheriting GeneralGate.optimize has a calc_params without content-dependent raise; arccos/arcsin arguments are clipped or normalised ratios and calc_params does not divide by an unguarded sine/cosine of a recovered angle; EmbeddedGate computes its index into the embedding\'s matrix from the embedding\'s own radixes (EMBEDSPACE).',
          'Unitarity, derivative values outside that fragment (delegating, expm- and kron-based gates), calc_params and agreement with the binary expression backend are numerical and NOT decided.'),
  'C19': ('static analysis: returns-receiver path rule, effect restriction on the receiver circuit (EFF), arg-min selection idiom over the four multi-start siblings, in both the sort and the running-minimum spelling (ARGMIN), parameter-vector order (CURSOR), clone comparison of the UnitaryBuilder contractions (CLONE)',
          'Decides: Circuit.instantiate returns self on every path; from instantiate and every instantiater only set_params mutates the receiver; all multi-start selectors keep the candidate of least Hilbert-Schmidt cost against (circuit, target); Circuit.params is the concatenation in iteration order.',
